@@ -80,6 +80,56 @@ func streamKeyToHash(r *Run) {
 		}
 		seen[[2]uint64{h1, c1}] = s
 	}
+	// structured near-identical keys: byte strings that differ only by trailing / leading NUL
+	// bytes, the encodings of one number at different widths and endianness, prefixes of each
+	// other, every single byte, short and long keys around the 8- and 16-byte marks.  Two distinct
+	// keys sharing BOTH hashes would be served each other's values (for a 128-bit content hash
+	// the chance of an accidental pair here is below 2^-100).
+	var structured [][]byte
+	for k := 0; k <= 12; k++ {
+		structured = append(structured, make([]byte, k))                          // NUL^k
+		structured = append(structured, append([]byte("ab"), make([]byte, k)...)) // "ab" NUL^k
+		structured = append(structured, append(make([]byte, k), 'a', 'b'))        // NUL^k "ab"
+		structured = append(structured, []byte("aaaaaaaaaaaaaaaaaaaaaaaa")[:2*k]) // a^(2k)
+	}
+	for b := 0; b < 256; b++ {
+		structured = append(structured, []byte{byte(b)}, []byte{byte(b), 0}, []byte{0, byte(b)}, []byte{byte(b), byte(b)})
+	}
+	for _, n := range []uint64{1, 2, 255, 256, 513, 65535, 65536, 1 << 24, 1<<32 - 1, 1 << 32, 1<<56 + 5, ^uint64(0)} {
+		for _, w := range []int{1, 2, 3, 4, 5, 7, 8, 9, 16} {
+			le, be := make([]byte, w), make([]byte, w)
+			for i := 0; i < w && i < 8; i++ {
+				le[i] = byte(n >> (8 * uint(i)))
+				be[w-1-i] = byte(n >> (8 * uint(i)))
+			}
+			structured = append(structured, le, be)
+		}
+	}
+	seenB := map[[2]uint64]string{}
+	for _, b := range structured {
+		h, c := z.KeyToHash(b)
+		hs, cs := z.KeyToHash(string(b))
+		r.Count("structured")
+		if h != hs || c != cs {
+			r.Fail("C01", fmt.Sprintf("z.KeyToHash differs between []byte and string for %q: (%d,%d) vs (%d,%d)", b, h, c, hs, cs), fmt.Sprintf("%q", b))
+		}
+		if prev, ok := seenB[[2]uint64{h, c}]; ok && prev != string(b) {
+			r.Fail("C01", fmt.Sprintf("distinct keys %q and %q share both hashes (%d,%d): a value stored under one is returned for the other", prev, string(b), h, c), fmt.Sprintf("%q vs %q", prev, string(b)))
+		}
+		seenB[[2]uint64{h, c}] = string(b)
+	}
+	// end to end with string keys that differ only by a trailing NUL / by width
+	if sc, err := ristretto.NewCache(&ristretto.Config[string, uint64]{NumCounters: 1000, MaxCost: 1000, BufferItems: 64, IgnoreInternalCost: true}); err == nil {
+		sc.Set("ab", 1, 1)
+		sc.Set("\x01\x02", 2, 1)
+		sc.Wait()
+		for _, k := range []string{"ab\x00", "\x00ab", "ab\x00\x00", "\x01\x02\x00\x00", "a", "abc"} {
+			if v, ok := sc.Get(k); ok {
+				r.Fail("C01", fmt.Sprintf("Get(%q) returned %d, which was stored under another key", k, v), "default KeyToHash, string keys \"ab\", \"\\x01\\x02\"")
+			}
+		}
+		sc.Close()
+	}
 	// end to end: a cache with the default hashing never serves a value under another key
 	cache, err := ristretto.NewCache(&ristretto.Config[kInt, uint64]{NumCounters: 1000, MaxCost: 1000, BufferItems: 64, IgnoreInternalCost: true})
 	if err == nil {
